@@ -2,8 +2,10 @@
 // IWYU pragma: private, include "rlbox.hpp"
 // IWYU pragma: friend "rlbox_.*\.hpp"
 
+#include <cstdint>
 #include <cstdlib>
 #include <iostream>
+#include <limits>
 #include <stdexcept>
 #include <type_traits>
 #include <utility>
@@ -33,6 +35,29 @@ namespace detail {
     #endif
   }
     // clang-format on
+  }
+
+  /**
+   * @brief Checks the byte offset used by tainted pointer arithmetic.
+   *
+   * The offset `count * el_size` is computed modulo the width of a pointer. It
+   * has to stay below half of the address space: a larger offset wraps around
+   * and could land back inside the sandbox, where the subsequent
+   * is_in_same_sandbox check cannot tell it apart from a small offset.
+   */
+  template<typename T_Num>
+  inline void check_pointer_offset(T_Num count, size_t el_size)
+  {
+    static_assert(std::is_integral_v<T_Num>);
+    uintmax_t magnitude = static_cast<uintmax_t>(count);
+    if constexpr (std::is_signed_v<T_Num>) {
+      if (count < 0) {
+        magnitude = uintmax_t(0) - magnitude;
+      }
+    }
+    dynamic_check(
+      magnitude <= (std::numeric_limits<uintptr_t>::max() / 2) / el_size,
+      "Pointer arithmetic offset overflows the address space");
   }
 
 #ifdef RLBOX_NO_COMPILE_CHECKS
